@@ -16,6 +16,8 @@ import vlib
 
 LEVEL = "model_checking"
 CLAUSES = ("MetaChains", "SelfStake", "TotalDelegations", "DelegateTotals", "FrozenBelowMin")
+# spec.MinStakeProvider per chain; must agree with MinSpec / MinSpecHigh / HighChains in specs/*Dualstaking*.cfg
+MINSPEC = {"c1": 1000, "c2": 2000, "c3": 1000}
 PERSISTENT = ("MetaChains", "SelfStake", "TotalDelegations", "Mirror", "NonNegative")
 _LINE = re.compile(r'^<<"(VIOL|DRIFT)", (\d+), "([^"]+)">>$', re.M)
 
@@ -29,7 +31,7 @@ def drive_and_validate(ctx, behs, tag, clauses, seeds=None):
         binp = ctx._ds_bin = vlib.go_test_build("dualstaking")
     bpath = os.path.join(ctx.work, tag + "_behaviours.json")
     tpath = os.path.join(ctx.work, tag + "_trace.ndjson")
-    vlib.write_json(bpath, {"behs": behs, "seeds": seeds})
+    vlib.write_json(bpath, {"behs": behs, "seeds": seeds, "minspec": MINSPEC})
     vlib.run_test_harness(binp, {"VERIF_IN": bpath, "VERIF_OUT": tpath, "VERIF_SEED": ctx.seed}, timeout=3000)
     rows = vlib.read_ndjson(tpath)
     if sum(1 for r in rows if r["ev"] == "reset") != len(behs):
@@ -54,6 +56,22 @@ def drive_and_validate(ctx, behs, tag, clauses, seeds=None):
         findings.append({"sig": "%s@%s" % (name, ev["ev"]), "beh": behs[bi][:off - 1], "line": off, "event": ev,
                          "wseed": seeds[bi]})
     stats = {"events": len(rows), "ok_ops": {}, "failed_ops": {}, "multi_unstakeP": 0, "drift": drift}
+    # per-chain minimum: states where an entry on the high-minimum chain c2 of a multi-chain provider whose FIRST
+    # chain has the low minimum lies between the two minima (it must be frozen), and the mirror situation
+    stats["between_minima_high_chain_not_first"] = 0
+    stats["between_minima_low_chain_behind_high_first"] = 0
+    lo, hi = min(MINSPEC.values()), max(MINSPEC.values())
+    for r in rows:
+        for p, ents in r["e"].items():
+            ch = r["m"][p]["chains"]
+            if len(ch) < 2:
+                continue
+            for c, x in ents.items():
+                if x["on"] and lo <= x["stake"] + x["dt"] < hi:
+                    if MINSPEC[c] == hi and MINSPEC[ch[0]] == lo:
+                        stats["between_minima_high_chain_not_first"] += 1
+                    elif MINSPEC[c] == lo and MINSPEC[ch[0]] == hi:
+                        stats["between_minima_low_chain_behind_high_first"] += 1
     prev = None
     for r in rows:
         if r["ev"] != "reset":
@@ -114,7 +132,8 @@ def run(ctx):
                        "full operation list")
     ctx.sample(behs[0])
     ctx.assumptions += ["2 providers (vault != provider address) x 3 chains, 2 delegators, 2 validators; amounts <= 3001",
-                        "min self delegation 100, spec min stake 1000 (test keepers / mock spec); no jailing, no explicit freeze tx",
+                        "min self delegation 100; spec min stake 1000 on c1 and c3, 2000 on c2 (each entry is checked against its own "
+                        "chain's minimum); no jailing, no explicit freeze tx",
                         "state logged one block after every transaction (begin/end blockers ran)"]
     findings, st = drive_and_validate(ctx, behs, "main", CLAUSES)
     ctx.cov["traces_validated_against_impl"] += len(behs)
@@ -129,6 +148,11 @@ def run(ctx):
     for op in ("stake", "move", "unstakeV", "unstakeP", "dsdelegate", "dsunbond", "dsredelegate"):
         if st["ok_ops"].get(op, 0) < (need if op != "move" else max(3, need // 5)):
             raise vlib.Infra("vacuous: only %d accepted %s operations" % (st["ok_ops"].get(op, 0), op))
+    ctx.cov["entries_between_the_two_spec_minima"] = {"high_min_chain_not_first": st["between_minima_high_chain_not_first"],
+                                                      "low_min_chain_behind_high_min_first": st["between_minima_low_chain_behind_high_first"]}
+    if st["between_minima_high_chain_not_first"] < 5 or st["between_minima_low_chain_behind_high_first"] < 5:
+        raise vlib.Infra("vacuous: the per-chain minimum stake is not exercised in both stake orders (%d / %d states)" % (
+            st["between_minima_high_chain_not_first"], st["between_minima_low_chain_behind_high_first"]))
     if st["multi_unstakeP"] < 1:
         raise vlib.Infra("vacuous: no accepted unstake by provider address on a multi-chain provider with delegations")
     confirm(ctx, findings, CLAUSES)
